@@ -412,7 +412,12 @@ def main(argv):
                 notes.append(f"known finding {k.get('id')} did not reproduce in this run (repaired? move it to fixed by hand)")
     rc = 0
     out_lines = []
+    seen_kf = set()
     for kf, fail in known_hit:
+        key = (kf.get("id"), kf.get("label"), kf.get("unit"))
+        if key in seen_kf:
+            continue
+        seen_kf.add(key)
         out_lines.append(f"KNOWN-FINDING: property={pid} {kf.get('id')} {kf.get('what')}")
     replay_paths = []
     if violations:
